@@ -157,6 +157,7 @@ class Expression(Term):
             queues.extend(f.queue for f in forks[:1] if isinstance(f, Branch))
             return forks
 
+        providers[dag[0].term] = collections.deque(fork(dag[0].term, dag[0].szout))  # the head can fan out too
         for node in dag[1:]:
             args = [providers[a].popleft() for a in node.args]
             term = (Zip if len(args) > 1 else Chain)(providers[node.term].popleft(), *args)
